@@ -13,6 +13,7 @@ ORACLES = {
     'UserTransport': {'returns': 'opt:=pjrpc.common.v20:Response|=pjrpc.common.v20:BatchResponse',
                       'raises': ('Exception', 'UserBaseException')},
     'UserValidator': {'returns': 'none', 'raises': ('pjrpc.common.exceptions:IdentityError',)},
+    'UserIdGen': {'returns': '=UserIdIter', 'raises': ()},
     'UserJitter': {'returns': 'number', 'raises': ()},
     'UserCallback': {'returns': 'any', 'raises': ('Exception',)},
     'UserExcludeFn': {'returns': 'any', 'raises': ()},
@@ -33,6 +34,7 @@ FIELD_TYPES = {
     ('pjrpc.common.v20:BatchRequest', '_strict'): 'bool',
     ('pjrpc.common.v20:BatchResponse', '_responses'): 'list[=pjrpc.common.v20:Response]',
     ('pjrpc.common.v20:BatchRequest', '_requests'): 'list[=pjrpc.common.v20:Request]',
+    ('pjrpc.client.client:BaseAbstractClient', 'id_gen_impl'): '=UserIdGen',
     ('pjrpc.client.retry:RetryStrategy', 'backoff'): 'pjrpc.client.retry:Backoff',
     ('pjrpc.client.retry:RetryStrategy', 'codes'): 'opt:=set',
     ('pjrpc.client.retry:RetryStrategy', 'exceptions'): 'opt:=set',
@@ -40,6 +42,9 @@ FIELD_TYPES = {
 
 # methods of abstract user objects (C19: tracers do not raise)
 ORACLE_METHODS = {
+    # ids produced by the configured id generator: strings or integers, never null (assumed for the built-in
+    # generators sequential / randint / random; generators.uuid violates it - see known findings)
+    'UserIdIter': {'__next__': {'returns': 'str|int', 'raises': ()}},
     # the transport implemented by a concrete client: returns the response text (or nothing) or raises
     'AbstractClient': {'_request': {'returns': 'opt:str', 'raises': ('Exception', 'UserBaseException')}},
     'AbstractAsyncClient': {'_request': {'returns': 'opt:str', 'raises': ('Exception', 'UserBaseException')}},
